@@ -24,7 +24,7 @@ RULE = ('Hypothesis-generated frame scripts over 2-4 recording WorldHandle subcl
         'on_switch_out in the instance left, one on_switch_in in the instance entered after its load-time '
         'callbacks and held events and before its first process, a left world hears nothing while away, clear '
         'flags yield fresh instances, no in/out events for raise SwitchWorld. '
-        'Probes are also sent to instances whose handle was cleared meanwhile; a coroutine may kill itself before it asks for the switch. '
+        'After the run the caller may make a left world current again itself (loop.switch(handle)): it is no longer silenced and what it held has been delivered, in order, when switch returns. Probes are also sent to instances whose handle was cleared meanwhile; a coroutine may kill itself before it asks for the switch. '
         'Non-trivial = >= 2 switches incl. a '
         'clear flag combined with switch(), a self-switch, or a return to a left world with held events. '
         'Distinct = sha1 of canonical JSON.')
@@ -65,7 +65,10 @@ def strategy():
     return st.fixed_dictionaries({'handles': st.integers(2, 4), 'frames': worldops.chunked(fr, 16, chunk=4),
                                   # which World classes the handles load: 0 plain/falsy alternating, 1 value-equal
                                   # worlds, 2 value-equal and value-equal-and-falsy, 3 all plain
-                                  'worlds': st.integers(0, 3)})
+                                  'worlds': st.integers(0, 3),
+                                  # reenter: after the run, the caller itself makes a world that was left (and is
+                                  # holding its events) current again with loop.switch(handle): 0 no, 1-3 which one
+                                  'reenter': st.integers(0, 3)})
 
 
 class Rec(desper.Processor):
@@ -300,10 +303,38 @@ class Run:
                 raise
             except Exception as exc:
                 self.viol('loop_raised', exception=repr(exc), frame=self.g)
+            self.judge()
+            if self.case.get('reenter'):
+                self.reenter()
         finally:
             desper.default_loop = old
-        self.judge()
         return self
+
+    def reenter(self):
+        """...holds its events until it is entered again: entering by a plain loop.switch(handle) between two runs
+        counts - the world is no longer silenced and what it held is delivered (in order) by the time switch returns"""
+        cands = [h for h in self.handles if h.cached and h is not self.loop.current_world_handle
+                 and not h().dispatch_enabled]
+        if not cands:
+            return
+        h = cands[self.case['reenter'] % len(cands)]
+        w = h()
+        inst = self.inst_of[id(w)]
+        tokens = [('token', 'held until the manual entry', k) for k in range(2)]
+        for t in tokens:
+            w.dispatch('probe', t)
+        mark = len(self.log)
+        try:
+            self.loop.switch(h)
+        except Exception as exc:
+            self.viol('loop_switch_raised', exception=repr(exc))
+        if self.loop.current_world is not w or self.loop.current_world_handle is not h:
+            self.viol('current_world_is_the_instance_the_target_handle_yields', after='loop.switch between two runs')
+        got = [x[3][0] for x in self.log[mark:] if x[0] == 'E' and x[1] == inst and x[2] == 'probe']
+        if not w.dispatch_enabled or [t for t in got if t in tokens] != tokens:
+            self.viol('held_events_delivered_in_order_when_the_world_is_entered_again', entered_by='loop.switch',
+                      still_silenced=not w.dispatch_enabled, got=repr(got)[:200])
+        self.flags['left_world_entered_again_by_loop_switch'] += 1
 
     # ---- trace oracle -------------------------------------------------------------------------------
     def judge(self):
